@@ -1818,6 +1818,10 @@ func (kmc *KeystoreManagerForPoC) ChangePrivPassphrase(oldPrivPass, newPrivPass 
 		addrManager.privPassphraseSalt = passphraseSalt
 		addrManager.hashedPrivPassphrase = hashedPassphrase
 	}
+	if !kmc.unlocked {
+		// the wallet stays locked: the new clear text master key must not remain in memory
+		newMasterPrivKey.Zero()
+	}
 	return nil
 }
 
